@@ -264,7 +264,20 @@ def group_below_st(draw, tier):
         items = [{"t": "ace", "rec": G.to_native(top, platform)}, {"t": "ace", "rec": G.to_native(bottom, platform)}]
         acl = {"platform": platform, "name": "T", "type": "extended", "items": items, "prefix": "= ", "group_by": "", "indent": "  "}
         return {"acl": acl, "skip": None}
-    a, b = draw(st.one_of(group_under_net(), group_under_wild(), group_under_wild(), adjacent_run_group()))
+    a, b = draw(st.one_of(group_under_net(), group_under_net(), group_under_wild(), group_under_wild(), adjacent_run_group()))
+    if draw(st.sampled_from(range(4))) == 1:
+        # the upper entry holds exactly one member of the group below; another member of that group contains it
+        plen = draw(st.integers(20, 32))
+        w = (1 << (32 - plen)) - 1
+        nb = draw(G.base_st()) & ~w & R.ALL1
+        w2 = (1 << (32 - plen + draw(st.integers(1, 6)))) - 1
+        mem = [[nb, w], [nb & ~w2 & R.ALL1, w2]]
+        if draw(st.booleans()):
+            mem.reverse()
+        if draw(st.booleans()):
+            mem.insert(draw(st.integers(0, 2)), [nb | (w >> 1 if w else 0), 0] if w else [nb, 0])
+        a = {"k": "prefix", "b": nb, "w": w}
+        b = {"k": "group", "b": 0, "w": 0, "n": "G1", "m": mem}
     bottom = dict(top)
     for rec, ad in ((top, a), (bottom, b)):
         rec[side] = ad if ad["k"] == "group" or not R.is_contiguous(ad["w"]) else G.native_addr(G.addr_pair(ad), platform)
@@ -280,7 +293,7 @@ def group_below_st(draw, tier):
 def case_st(draw, tier):
     if draw(st.sampled_from(range(3))) == 0:
         return draw(embedded_pair_st(tier))
-    if draw(st.integers(0, 9)) == 7:
+    if draw(st.integers(0, 9)) in (3, 7):
         return draw(group_below_st(tier))
     if draw(st.integers(0, 9)) == 5:
         return draw(stale_report_st(tier))
